@@ -4,7 +4,7 @@ From SM Require Import C17.Model.
 
 Section P.
   Variable Src : Type.
-  Variable gen : nat -> nat -> nat -> Src.
+  Variable gen : nat -> nat -> nat -> nat -> Src.
   Variable tag : Src -> nat.
   (* the named hypothesis: the tag identifies the source.  CRC32 does not have
      this property on arbitrary text; every run checks it on the sources of
@@ -12,21 +12,23 @@ Section P.
   Hypothesis tag_injective : forall a b, tag a = tag b -> a = b.
 
   Notation st := (st Src).
+  Notation step := (step Src gen tag true).
+  Notation run := (run Src gen tag true).
+
+  (* a cache entry never carries a stamp later than its file, and when the stamp IS the file's time the
+     cached text is the file's text *)
+  Definition entry_ok (f : file) (stamp x : nat) : Prop := stamp <= mtime f /\ (stamp = mtime f -> x = txt f).
 
   Definition Inv (s : st) : Prop :=
-    mtime (fm Src s) <= clock Src s /\ mtime (fc Src s) <= clock Src s /\ mtime (ft Src s) <= clock Src s /\
     match mcache Src s with
-    | Some (x, time) => time <= clock Src s /\
-                        (mtime (fm Src s) <= time -> mtime (fc Src s) <= time -> x = txt (fm Src s))
+    | Some (x, sm, sc) => entry_ok (fm Src s) sm x /\ sc <= mtime (fc Src s)
     | None => True
     end /\
-    match tcache Src s with
-    | Some (time, x) => time <= clock Src s /\ (mtime (ft Src s) <= time -> x = txt (ft Src s))
-    | None => True
-    end /\
+    match hcache Src s with Some (time, x) => entry_ok (fh Src s) time x | None => True end /\
+    match kcache Src s with Some (time, x) => entry_ok (fk Src s) time x | None => True end /\
     Forall (fun kv => tag (snd kv) = fst (fst kv)) (dlls Src s).
 
-  Lemma inv_init m c t : Inv (init Src m c t).
+  Lemma inv_init m c h k : Inv (init Src m c h k).
   Proof. unfold Inv, init; simpl. repeat split; auto. Qed.
 
   Lemma lookup_in k l b : lookup Src k l = Some b -> In (k, b) l.
@@ -39,89 +41,118 @@ Section P.
     - intros H. right. auto.
   Qed.
 
-  (* what a Load evaluates, in terms of the cached values *)
-  Lemma load_result (s : st) bits s' out :
-    Inv s -> step Src gen tag s (Load bits) = (s', Some out) ->
-    out = gen (txt (fm Src s)) (txt (fc Src s)) (txt (ft Src s)).
+  Lemma template_current cache f :
+    match cache with Some (time, x) => entry_ok f time x | None => True end ->
+    entry_ok f (fst (template cache f)) (snd (template cache f)) /\ snd (template cache f) = txt f.
   Proof.
-    intros [Hm [Hc [Ht [Hmc [Htc Hd]]]]] Hstep. unfold step in Hstep.
-    set (mc := match mcache Src s with
-               | Some (x, time) => if (time <? mtime (fm Src s)) || (time <? mtime (fc Src s))
-                                   then (txt (fm Src s), Nat.max (mtime (fm Src s)) (mtime (fc Src s))) else (x, time)
-               | None => (txt (fm Src s), Nat.max (mtime (fm Src s)) (mtime (fc Src s))) end) in *.
-    set (tc := match tcache Src s with
-               | Some (time, x) => if time <? mtime (ft Src s) then (mtime (ft Src s), txt (ft Src s)) else (time, x)
-               | None => (mtime (ft Src s), txt (ft Src s)) end) in *.
-    assert (Hmt : fst mc = txt (fm Src s)).
-    { unfold mc. destruct (mcache Src s) as [[x time]|]; auto.
-      destruct ((time <? mtime (fm Src s)) || (time <? mtime (fc Src s))) eqn:E; auto.
-      apply orb_false_iff in E. destruct E as [E1 E2]. apply Nat.ltb_ge in E1, E2.
-      simpl. destruct Hmc as [_ Hx]. auto. }
-    assert (Htt : snd tc = txt (ft Src s)).
-    { unfold tc. destruct (tcache Src s) as [[time x]|]; auto.
-      destruct (time <? mtime (ft Src s)) eqn:E; auto.
-      apply Nat.ltb_ge in E. simpl. destruct Htc as [_ Hx]. auto. }
-    rewrite Hmt, Htt in Hstep.
-    destruct (lookup Src (tag (gen (txt (fm Src s)) (txt (fc Src s)) (txt (ft Src s))), bits) (dlls Src s)) as [built|] eqn:El.
+    unfold template, entry_ok. destruct cache as [[time x]|]; simpl.
+    - intros [H1 H2]. destruct (time <? mtime f) eqn:E; simpl.
+      + repeat split; auto.
+      + apply Nat.ltb_ge in E. assert (time = mtime f) by lia. repeat split; auto.
+    - intros _. repeat split; auto.
+  Qed.
+
+  Lemma module_current (s : st) :
+    match mcache Src s with
+    | Some (x, sm, sc) => entry_ok (fm Src s) sm x /\ sc <= mtime (fc Src s)
+    | None => True
+    end ->
+    let mc := module Src true s in
+    entry_ok (fm Src s) (snd (fst mc)) (fst (fst mc)) /\ snd mc <= mtime (fc Src s) /\ fst (fst mc) = txt (fm Src s).
+  Proof.
+    unfold module, stamps, entry_ok. destruct (mcache Src s) as [[[x sm] sc]|]; simpl.
+    - intros [[H1 H2] H3].
+      destruct ((sm <? mtime (fm Src s)) || (sc <? mtime (fc Src s))) eqn:E; simpl.
+      + repeat split; auto.
+      + apply orb_false_iff in E. destruct E as [E1 E2]. apply Nat.ltb_ge in E1, E2.
+        assert (sm = mtime (fm Src s)) by lia. repeat split; auto.
+    - intros _. repeat split; auto.
+  Qed.
+
+  (* what a Load evaluates, in terms of the files *)
+  Lemma load_result (s : st) bits s' out :
+    Inv s -> step s (Load bits) = (s', Some out) ->
+    out = gen (txt (fm Src s)) (txt (fc Src s)) (txt (fh Src s)) (txt (fk Src s)).
+  Proof.
+    intros [Hm [Hh [Hk Hd]]] Hstep. unfold Model.step in Hstep.
+    destruct (module_current s Hm) as [_ [_ Em]].
+    destruct (template_current _ _ Hh) as [_ Eh]. destruct (template_current _ _ Hk) as [_ Ek].
+    rewrite Em, Eh, Ek in Hstep.
+    destruct (lookup Src (tag (gen (txt (fm Src s)) (txt (fc Src s)) (txt (fh Src s)) (txt (fk Src s))), bits) (dlls Src s)) as [built|] eqn:El.
     - inversion Hstep; subst. apply lookup_in in El.
       rewrite Forall_forall in Hd. specialize (Hd _ El). simpl in Hd.
       apply tag_injective. exact Hd.
     - inversion Hstep; subst. reflexivity.
   Qed.
 
-  Lemma inv_step (s : st) o : Inv s -> Inv (fst (step Src gen tag s o)).
+  Lemma entry_edit f stamp x t time : entry_ok f stamp x -> mtime f < time -> entry_ok (MkFile t time) stamp x.
+  Proof. unfold entry_ok; simpl. intros [H1 H2] Hlt. split; [lia|]. intros; lia. Qed.
+
+  Lemma inv_step (s : st) o : Inv s -> advances Src s o = true -> Inv (fst (step s o)).
   Proof.
-    intros [Hm [Hc [Ht [Hmc [Htc Hd]]]]]. destruct o; simpl.
-    - (* EditM *) unfold Inv; simpl. repeat split; auto; try lia.
-      + destruct (mcache Src s) as [[x time]|]; auto. destruct Hmc as [H1 H2]. split; [lia|]. intros; lia.
-      + destruct (tcache Src s) as [[time x]|]; auto. destruct Htc as [H1 H2]. split; [lia|]. auto.
-    - (* EditC *) unfold Inv; simpl. repeat split; auto; try lia.
-      + destruct (mcache Src s) as [[x time]|]; auto. destruct Hmc as [H1 H2]. split; [lia|]. intros; lia.
-      + destruct (tcache Src s) as [[time x]|]; auto. destruct Htc as [H1 H2]. split; [lia|]. auto.
-    - (* EditT *) unfold Inv; simpl. repeat split; auto; try lia.
-      + destruct (mcache Src s) as [[x time]|]; auto. destruct Hmc as [H1 H2]. split; [lia|]. auto.
-      + destruct (tcache Src s) as [[time x]|]; auto. destruct Htc as [H1 H2]. split; [lia|]. intros; lia.
+    intros [Hm [Hh [Hk Hd]]] Ha. destruct o; simpl in *; try apply Nat.ltb_lt in Ha.
+    - (* EditM *) unfold Inv; simpl. repeat split; auto.
+      destruct (mcache Src s) as [[[x sm] sc]|]; auto. destruct Hm as [H1 H2]. split; auto. eapply entry_edit; eauto.
+    - (* EditC *) unfold Inv; simpl. repeat split; auto.
+      destruct (mcache Src s) as [[[x sm] sc]|]; auto. destruct Hm as [H1 H2]. split; auto. lia.
+    - (* EditH *) unfold Inv; simpl. repeat split; auto.
+      destruct (hcache Src s) as [[time0 x]|]; auto. eapply entry_edit; eauto.
+    - (* EditK *) unfold Inv; simpl. repeat split; auto.
+      destruct (kcache Src s) as [[time0 x]|]; auto. eapply entry_edit; eauto.
     - (* Load *)
-      set (mc := match mcache Src s with
-                 | Some (x, time) => if (time <? mtime (fm Src s)) || (time <? mtime (fc Src s))
-                                     then (txt (fm Src s), Nat.max (mtime (fm Src s)) (mtime (fc Src s))) else (x, time)
-                 | None => (txt (fm Src s), Nat.max (mtime (fm Src s)) (mtime (fc Src s))) end).
-      set (tc := match tcache Src s with
-                 | Some (time, x) => if time <? mtime (ft Src s) then (mtime (ft Src s), txt (ft Src s)) else (time, x)
-                 | None => (mtime (ft Src s), txt (ft Src s)) end).
-      assert (Hmc' : snd mc <= clock Src s /\ (mtime (fm Src s) <= snd mc -> mtime (fc Src s) <= snd mc -> fst mc = txt (fm Src s))).
-      { unfold mc. destruct (mcache Src s) as [[x time]|]; simpl; [|split; auto; lia].
-        destruct ((time <? mtime (fm Src s)) || (time <? mtime (fc Src s))); simpl; [split; auto; lia|]. exact Hmc. }
-      assert (Htc' : fst tc <= clock Src s /\ (mtime (ft Src s) <= fst tc -> snd tc = txt (ft Src s))).
-      { unfold tc. destruct (tcache Src s) as [[time x]|]; simpl; [|split; auto].
-        destruct (time <? mtime (ft Src s)); simpl; [split; auto|]. exact Htc. }
-      destruct (lookup Src _ (dlls Src s)); unfold Inv; simpl;
-        repeat split; auto;
-        try (destruct mc; simpl in *; tauto); try (destruct tc; simpl in *; tauto);
-        try (constructor; auto).
+      destruct (module_current s Hm) as [M1 [M2 _]].
+      destruct (template_current _ _ Hh) as [H1 _]. destruct (template_current _ _ Hk) as [K1 _].
+      destruct (lookup Src _ (dlls Src s)); unfold Inv; simpl.
+      + repeat split; auto.
+        * destruct (module Src true s) as [[x sm] sc]; simpl in *. split; auto.
+        * destruct (template (hcache Src s) (fh Src s)); simpl in *; auto.
+        * destruct (template (kcache Src s) (fk Src s)); simpl in *; auto.
+      + repeat split; auto.
+        * destruct (module Src true s) as [[x sm] sc]; simpl in *. split; auto.
+        * destruct (template (hcache Src s) (fh Src s)); simpl in *; auto.
+        * destruct (template (kcache Src s) (fk Src s)); simpl in *; auto.
     - (* Fresh *) unfold Inv; simpl. repeat split; auto.
   Qed.
 
-  Lemma inv_run ops : forall s0 : st, Inv s0 -> Inv (fst (run Src gen tag s0 ops)).
+  Lemma inv_run ops : forall s0 : st, Inv s0 -> advancing Src gen tag true s0 ops = true -> Inv (fst (run s0 ops)).
   Proof.
-    induction ops as [|o r IH]; intros s0 H0; simpl; auto.
-    pose proof (inv_step s0 o H0) as H1.
-    destruct (step Src gen tag s0 o) as [s1 o1]. simpl in H1.
-    specialize (IH s1 H1). destruct (run Src gen tag s1 r). simpl in *. exact IH.
+    induction ops as [|o r IH]; intros s0 H0 Ha; simpl; auto.
+    simpl in Ha. apply andb_true_iff in Ha. destruct Ha as [Ha1 Ha2].
+    pose proof (inv_step s0 o H0 Ha1) as H1.
+    destruct (step s0 o) as [s1 o1] eqn:E. simpl in H1, Ha2.
+    specialize (IH s1 H1 Ha2). destruct (run s1 r). simpl in *. exact IH.
   Qed.
 
-  (* the headline: after ANY history of edits, loads (any precision) and process
-     restarts, a load evaluates a library compiled from the current texts *)
-  Theorem load_current m c t ops bits :
-    let s := fst (run Src gen tag (init Src m c t) ops) in
-    forall s' out, step Src gen tag s (Load bits) = (s', Some out) ->
-    out = gen (txt (fm Src s)) (txt (fc Src s)) (txt (ft Src s)).
+  (* the headline: after ANY history of edits (each advancing the time of the file it touches), loads (any
+     precision) and process restarts, a load evaluates a library compiled from the current texts *)
+  Theorem load_current m c h k ops bits :
+    advancing Src gen tag true (init Src m c h k) ops = true ->
+    let s := fst (run (init Src m c h k) ops) in
+    forall s' out, step s (Load bits) = (s', Some out) ->
+    out = gen (txt (fm Src s)) (txt (fc Src s)) (txt (fh Src s)) (txt (fk Src s)).
   Proof.
-    intros s s' out H. apply (load_result s bits s' out); auto.
-    apply inv_run. apply inv_init.
+    intros Ha s s' out H. apply (load_result s bits s' out); auto.
+    apply inv_run; auto. apply inv_init.
   Qed.
 
   (* a Load always returns something *)
-  Lemma load_some (s : st) bits : exists out, snd (step Src gen tag s (Load bits)) = Some out.
-  Proof. unfold step. destruct (lookup Src _ (dlls Src s)); simpl; eauto. Qed.
+  Lemma load_some pf (s : st) bits : exists out, snd (Model.step Src gen tag pf s (Load bits)) = Some out.
+  Proof. unfold Model.step. destruct (lookup Src _ (dlls Src s)); simpl; eauto. Qed.
 End P.
+
+(* ---- the single "newest" stamp (the code before the repair) does not have the property ---- *)
+Definition SrcW := (nat * nat * nat * nat)%type.
+Definition genW (m c h k : nat) : SrcW := (m, c, h, k).
+Definition tagW (s : SrcW) : nat := let '(m, c, h, k) := s in ((m * 7 + c) * 7 + h) * 7 + k.
+(* the C file is newer (time 9) than the model file (time 1); the model file is edited, its time advancing to 2 *)
+Definition witness_init := init SrcW (MkFile 3 1) (MkFile 5 9) (MkFile 0 0) (MkFile 0 0).
+Definition witness_ops := [Load 64; EditM 4 2].
+Lemma newest_stamp_stale :
+  advancing SrcW genW tagW false witness_init witness_ops = true /\
+  let s := fst (run SrcW genW tagW false witness_init witness_ops) in
+  snd (step SrcW genW tagW false s (Load 64)) = Some (3, 5, 0, 0) /\ txt (fm SrcW s) = 4.
+Proof. vm_compute. repeat split. Qed.
+Lemma per_file_stamp_current :
+  let s := fst (run SrcW genW tagW true witness_init witness_ops) in
+  snd (step SrcW genW tagW true s (Load 64)) = Some (4, 5, 0, 0).
+Proof. vm_compute. reflexivity. Qed.
